@@ -52,12 +52,24 @@ pub fn all_opts() -> Vec<Opts> {
     v
 }
 
+thread_local! {
+    static RT: std::cell::RefCell<Option<tokio::runtime::Runtime>> = const { std::cell::RefCell::new(None) };
+}
+
+/// Run a future on this thread's current-thread runtime. The runtime is reused between calls
+/// (creating one, with its blocking pool, per call dominated the cost of small cases); it is
+/// taken out while in use, so a panic unwinding through here drops it and the next call
+/// starts with a fresh one.
 pub fn block_on<F: std::future::Future>(f: F) -> F::Output {
-    tokio::runtime::Builder::new_current_thread()
-        .enable_all()
-        .build()
-        .expect("runtime")
-        .block_on(f)
+    let rt = RT.with(|r| r.borrow_mut().take()).unwrap_or_else(|| {
+        tokio::runtime::Builder::new_current_thread()
+            .enable_all()
+            .build()
+            .expect("runtime")
+    });
+    let out = rt.block_on(f);
+    RT.with(|r| *r.borrow_mut() = Some(rt));
+    out
 }
 
 pub fn local(path: &Path) -> Transport {
